@@ -87,6 +87,57 @@ def parseBlockA : Expr → Option (List RuleA)
   | .block _ e => parseRulesA e
   | _ => Option.none
 
+/-! ### `pass` / `break` anywhere in the action list
+
+The reading of `Spec/Rules.lean` ("`pass` / `break` anywhere in the action list"): the actions of
+a rule are all the listed actions and attachment blocks that are not `pass` / `break`, in the order
+listed; its control is `pass` / `break` iff that word occurs in the list; a list with both has no
+documented meaning (`none`).  Inside an attachment block the parser admits neither
+(`expr_validate_attachment_block`). -/
+
+mutual
+/-- One `expraction` other than `pass` / `break`. -/
+def parseActAW : Expr → Option ActA
+  | .attBlock l (.block _ e) => (parseRulesAW e).map fun rs => ActA.att l rs
+  | a => if isActionExpr a then some (ActA.plain a) else Option.none
+
+/-- The left-nested AND chain of `expractions`: its actions in order, `pass` / `break` skipped. -/
+def parseChainAW : Expr → Option (List ActA)
+  | .and _ l r =>
+    match parseChainAW l with
+    | Option.none => Option.none
+    | some ls =>
+      if (isCtlExpr r).isSome then some ls
+      else match parseActAW r with
+        | some x => some (ls ++ [x])
+        | Option.none => Option.none
+  | e => if (isCtlExpr e).isSome then some [] else (parseActAW e).map fun x => [x]
+
+/-- One `match cond rhs`, `pass` / `break` anywhere among the actions. -/
+def parseRuleAW : Expr → Option RuleA
+  | .mtch lno c rhs =>
+    if !isCond c then Option.none
+    else
+      match rhs with
+      | .block _ e => (parseRulesAW e).map fun rs => RuleA.blk lno c rs
+      | e =>
+        match ctlOfList (andChain e), parseChainAW e with
+        | some ctl, some as => some (RuleA.acts lno c as ctl)
+        | _, _ => Option.none
+  | _ => Option.none
+
+def parseRulesAW : Expr → Option (List RuleA)
+  | .or _ l r =>
+    match parseRulesAW l, parseRuleAW r with
+    | some ls, some x => some (ls ++ [x])
+    | _, _ => Option.none
+  | e => (parseRuleAW e).map fun x => [x]
+end
+
+def parseBlockAW : Expr → Option (List RuleA)
+  | .block _ e => parseRulesAW e
+  | _ => Option.none
+
 /-! ## conditions over the parts -/
 
 /-- What the specification is told about the message: the parts of every message (`none`: a
